@@ -50,8 +50,9 @@ class _Digest:
 
 
 class NdArray:
-    """numpy.ndarray model: nested lists of numbers with tolist(); str() is numpy's lossy summary and is
-    deliberately not modelled (reaching it is reported)"""
+    """numpy.ndarray model: nested lists of numbers with tolist().  str() / repr() follow numpy's documented print
+    options (precision 8, threshold 1000, edgeitems 3): entries are rounded and an array of more than 1000 entries is
+    summarised by its first and last three - two different arrays can print the same"""
 
     __lift_host__ = True
 
@@ -60,6 +61,17 @@ class NdArray:
 
     def tolist(self):
         return self.data
+
+    def _items(self):
+        flat = list(self.data)
+        show = flat if len(flat) <= 1000 else flat[:3] + [None] + flat[-3:]
+        return ", ".join("..." if x is None else (f"{float(x):.8g}" + ("." if float(x) == int(float(x)) else "")) for x in show)
+
+    def __repr__(self):
+        return "array([" + self._items() + "])"
+
+    def __str__(self):
+        return "[" + self._items().replace(",", "") + "]"
 
 
 USER_SIDE = '''
